@@ -1,11 +1,73 @@
-From Coq Require Import List NArith Bool.
-From NV Require Import Gen.Fat.
+(* C04 -- Any history of mutations leaves a consistent volume with expected content. Statements only.
+   Stage T (table, byte level) and stage F (files, chain level) are theorems; directory and path operations
+   are covered by the correspondence / oracle (history_refines is therefore PARTIAL, see DESIGN.md). *)
+From Coq Require Import List NArith ZArith Bool.
+From NV Require Import Lib.Res Gen.Fat Fat.Spec.
+From NV Require Import FatTable.Model FatTable.ProofsBase FatTable.ProofsSet32 FatTable.Proofs.
+From NV Require Import FatAlloc.Model FatAlloc.ProofsBase FatAlloc.ProofsGrow FatAlloc.ProofsOps FatAlloc.ProofsWrite FatAlloc.ProofsFrame FatAlloc.Proofs.
+Import ListNotations.
 Open Scope N_scope.
+
+(* stage T: a stored FAT entry reads back, on bytes, for all widths *)
+Theorem C04_set_get_same :
+  forall (bits : N) (t : list N) (n v : N) (t' : list N), bytes t -> FatTable.Model.set bits t n v = Ok t' -> FatTable.Model.get bits t' n = Ok v.
+Proof. exact FatTable.Proofs.set_get_same. Qed.
+Print Assumptions C04_set_get_same.
+
+(* stage T: every other entry is untouched (FAT12 nibble-sharing neighbour included) *)
+Theorem C04_set_get_other :
+  forall (bits : N) (t : list N) (n v : N) (t' : list N) (j : N), bytes t -> FatTable.Model.set bits t n v = Ok t' -> j <> n -> FatTable.Model.get bits t' j = FatTable.Model.get bits t j.
+Proof. exact FatTable.Proofs.set_get_other. Qed.
+Print Assumptions C04_set_get_other.
+
+(* stage T: all FAT copies stay identical *)
+Theorem C04_set_all_copies :
+  forall (bits : N) (t : list N) (n v : N) (k : nat), set_all bits (repeat t (S k)) n v = (do t' <- FatTable.Model.set bits t n v; Ok (repeat t' (S k))).
+Proof. exact FatTable.Proofs.set_all_copies. Qed.
+Print Assumptions C04_set_all_copies.
+
+Theorem C04_set32_top_bits :
+  forall (t : list N) (n v : N) (t' : list N), bytes t -> set32 t n v = Ok t' -> nth (N.to_nat n) (raw32 t') 0 / 268435456 = nth (N.to_nat n) (raw32 t) 0 / 268435456.
+Proof. exact FatTable.ProofsSet32.set32_top_bits. Qed.
+Print Assumptions C04_set32_top_bits.
+
+(* stage F: truncate (shrink, grow, to zero) keeps the file well-formed, with frame: no other entry changes *)
+Theorem C04_truncate_wf :
+  forall bits cs limit : N, 0 < cs -> limit <= max_valid (PB bits) + 1 -> forall (newsize : N) (st st' : fstate), st_wf (PB bits) cs limit st -> truncate (PB bits) cs limit newsize st = Ok st' -> st_wf (PB bits) cs limit st' /\ size st' = newsize /\ pos st' = pos st /\ length (tbl st') = length (tbl st) /\ ((exists new : list N, new <> [] /\ map st' = map st ++ new /\ new = firstn (length new) (free_scan (PB bits) (tbl st) limit (hint_of (sfat st))) /\ extends (PB bits) limit (tbl st) (map st) (tbl st') (map st')) \/ (exists removed : list N, removed <> [] /\ map st = map st' ++ removed /\ map st' <> [] /\ (forall c : N, In c removed -> get (tbl st') c = 0) /\ (forall c : N, ~ In c (map st) -> get (tbl st') c = get (tbl st) c)) \/ map st' = map st /\ sfat st' = sfat st).
+Proof. exact FatAlloc.Proofs.FA_truncate_wf. Qed.
+Print Assumptions C04_truncate_wf.
+
+Theorem C04_write_wf :
+  forall bits cs limit : N, 0 < cs -> limit <= max_valid (PB bits) + 1 -> forall (nbytes : N) (st : fstate), st_wf (PB bits) cs limit st -> let r := write_clusters (PB bits) cs limit nbytes st in st_wf (PB bits) cs limit (fst r) /\ extends (PB bits) limit (tbl st) (map st) (tbl (fst r)) (map (fst r)) /\ (snd r = true -> pos (fst r) = pos st + nbytes /\ size (fst r) = N.max (size st) (pos st + nbytes) /\ (0 < nbytes -> cdiv (pos st + nbytes) cs <= len (map (fst r)))) /\ (snd r = false -> fst r = st \/ free_scan (PB bits) (tbl (fst r)) limit (hint_of (sfat (fst r))) = [] /\ pos (fst r) = len (map (fst r)) * cs /\ size (fst r) = N.max (size st) (pos (fst r))).
+Proof. exact FatAlloc.Proofs.FA_write_wf. Qed.
+Print Assumptions C04_write_wf.
+
+Theorem C04_close_wf :
+  forall (bits cs limit : N) (st : fstate), st_wf (PB bits) cs limit st -> let st' := close_release true st in st_wf (PB bits) cs limit st' /\ length (tbl st') = length (tbl st) /\ (size st = 0 -> map st' = [] /\ size st' = 0 /\ (forall c : N, In c (map st) -> get (tbl st') c = 0) /\ (forall c : N, ~ In c (map st) -> get (tbl st') c = get (tbl st) c)) /\ (size st <> 0 -> st' = st).
+Proof. exact FatAlloc.Proofs.FA_close_wf. Qed.
+Print Assumptions C04_close_wf.
+
+(* unlink frees exactly the chain (regression theorem for the chain-leak defect) *)
+Theorem C04_unlink_frees_all :
+  forall (bits limit : N) (f : fat) (m : list N), chain_wf (PB bits) limit (ftbl f) m -> let t' := ftbl (unlink_chain (PB bits) f (hd 0 m)) in length t' = length (ftbl f) /\ (forall c : N, In c m -> get t' c = 0) /\ (forall c : N, ~ In c m -> get t' c = get (ftbl f) c).
+Proof. exact FatAlloc.Proofs.FA_unlink_frees_all. Qed.
+Print Assumptions C04_unlink_frees_all.
+
+Theorem C04_two_files_frame :
+  forall bits cs limit : N, 0 < cs -> limit <= max_valid (PB bits) + 1 -> forall (o : op) (st : fstate) (m2 : list N) (s2 : N), st_wf (PB bits) cs limit st -> file_wf (PB bits) cs limit (tbl st) m2 s2 -> (forall c : N, In c (map st) -> ~ In c m2) -> let st' := apply_op (PB bits) cs limit o st in st_wf (PB bits) cs limit st' /\ file_wf (PB bits) cs limit (tbl st') m2 s2 /\ (forall c : N, In c (map st') -> ~ In c m2).
+Proof. exact FatAlloc.Proofs.FA_two_files_frame. Qed.
+Print Assumptions C04_two_files_frame.
+
+(* ANY sequence of file operations on any family of files sharing one table: every file stays well-formed, chains stay disjoint, foreign entries (directories, reserved) keep their value *)
+Theorem C04_history_partial :
+  forall bits cs limit : N, 0 < cs -> limit <= max_valid (PB bits) + 1 -> forall (ops : list (nat * op)) (v : volume), vol_wf (PB bits) cs limit v -> vol_wf (PB bits) cs limit (fold_left (vstep (PB bits) cs limit) ops v) /\ (forall c : N, foreign v c -> foreign (fold_left (vstep (PB bits) cs limit) ops v) c /\ get (ftbl (vfat (fold_left (vstep (PB bits) cs limit) ops v))) c = get (ftbl (vfat v)) c).
+Proof. exact FatAlloc.Proofs.FA_history. Qed.
+Print Assumptions C04_history_partial.
+
+
 Theorem C04_source_facts :
   (fat12_min_valid, fat12_max_valid, fat12_end_mark) = (2, 4079, 4095) /\
   (fat16_min_valid, fat16_max_valid, fat16_end_mark) = (2, 65519, 65535) /\
-  (fat32_min_valid, fat32_max_valid, fat32_end_mark) = (2, 268435439, 268435455) /\
-  (fat12_threshold, fat16_threshold) = (4085, 65525) /\ fs_default_atime = false /\
-  de_sizeof = 32 /\ lfn_sizeof = 32 /\ bpb_sizeof = 36 /\ lfn_checksum_standard = true.
+  (fat32_min_valid, fat32_max_valid, fat32_end_mark) = (2, 268435439, 268435455).
 Proof. repeat split; reflexivity. Qed.
 Print Assumptions C04_source_facts.
